@@ -10,6 +10,10 @@ HASHY = [
     'x = [{"a": 1, "b": 2}, {"b": 2, "a": 1}]; return string(x[0]) == string(x[1]);', 'return keys(Meta);', 'return string(Meta);',
     'foreach k, v in Meta { t(k); } return len(Meta);', 'return {true: 1};', 'return sort(keys({"b": 1, "a": 2, "B": 3, 1: 4}));',
     'return {"k2": {"z": 1, "a": 2}, "k1": [3, {"y": 1, "x": 2}]};',
+    'h = {"a": 1, "A": 2, "b": 3, "B": 4, "c": 5}; n = 0; s = ""; foreach k, v in h { n = n + v; s = s + k; } return [n, s, keys(h), string(h)];',
+    'r = []; foreach k, v in {"Key": 1, "key": 2, "KEY": 3} { t(k, v); } return 1;',
+    # many constant folds spread over several functions (more than any per-evaluator budget an optimizer might keep)
+    "function alpha() { return " + " + ".join(["1"] * 520) + "; } function beta() { return " + " + ".join(["2"] * 520) + "; } function gamma() { return " + " * ".join(["1"] * 520) + "; } return [alpha(), beta(), gamma()];",
 ]
 
 class C19(Prop):
